@@ -103,7 +103,7 @@ func Ident(t *rapid.T, label string, sigs, encs []int) IdentSpec {
 		SigType: rapid.SampledFrom(sigs).Draw(t, label+"-sig"),
 		EncType: rapid.SampledFrom(encs).Draw(t, label+"-enc"),
 		KeySeed: rapid.Uint64Range(1, 1<<20).Draw(t, label+"-keyseed"),
-		PadSeed: rapid.Uint64().Draw(t, label+"-padseed"),
+		PadSeed: SeedG(t, label+"-padseed", true),
 		PadMode: rapid.SampledFrom([]int{0, 0, 0, 1, 2, 3}).Draw(t, label+"-padmode"),
 	}
 	if s.SigType == 0 && s.EncType == 0 && rapid.Bool().Draw(t, label+"-nullcert") {
@@ -268,6 +268,21 @@ func U32(t *rapid.T, label string) uint32 {
 	return rapid.Uint32().Draw(t, label)
 }
 
+// SeedG draws the seed of a filled field (padding, gateway hash, entry hash, ciphertext):
+// one time in twelve a degenerate content (model.DegenerateBase: all ones, a single set
+// bit, one repeated byte, ascending; all zero only where zero=true - an all-zero gateway
+// hash is a value the library's validators document as invalid).
+func SeedG(t *rapid.T, label string, zero bool) uint64 {
+	if rapid.IntRange(0, 11).Draw(t, label+"-deg") == 0 {
+		lo := 1
+		if zero {
+			lo = 0
+		}
+		return model.DegenerateBase + uint64(rapid.IntRange(lo, 8).Draw(t, label+"-degk"))
+	}
+	return rapid.Uint64().Draw(t, label)
+}
+
 func U16(t *rapid.T, label string) uint16 {
 	if rapid.IntRange(0, 2).Draw(t, label+"-b") == 0 {
 		return rapid.SampledFrom([]uint16{0, 1, 600, 65535}).Draw(t, label)
@@ -380,7 +395,7 @@ func Leases2(t *rapid.T, label string, min int) []Lease2Spec {
 	n := count(t, label+"-n", min, 16)
 	out := make([]Lease2Spec, n)
 	for i := range out {
-		out[i] = Lease2Spec{Seed: rapid.Uint64().Draw(t, label+"-seed"), Tunnel: rapid.Uint32().Draw(t, label+"-tun"), End: U32(t, label+"-end")}
+		out[i] = Lease2Spec{Seed: SeedG(t, label+"-seed", false), Tunnel: rapid.Uint32().Draw(t, label+"-tun"), End: U32(t, label+"-end")}
 	}
 	return out
 }
@@ -395,7 +410,7 @@ func Leases(t *rapid.T, label string) []LeaseSpec {
 		} else {
 			end = rapid.Uint64Range(0, 1<<63-1).Draw(t, label+"-end")
 		}
-		out[i] = LeaseSpec{Seed: rapid.Uint64().Draw(t, label+"-seed"), Tunnel: rapid.Uint32().Draw(t, label+"-tun"), EndMs: end}
+		out[i] = LeaseSpec{Seed: SeedG(t, label+"-seed", false), Tunnel: rapid.Uint32().Draw(t, label+"-tun"), EndMs: end}
 	}
 	return out
 }
@@ -588,7 +603,7 @@ func MetaG(t *rapid.T, label string, sigs []int) MetaSpec {
 	n := count(t, label+"-n", 1, 16)
 	for i := 0; i < n; i++ {
 		s.Entries = append(s.Entries, MetaEntrySpec{
-			Seed:    rapid.Uint64().Draw(t, label+"-eseed"),
+			Seed:    SeedG(t, label+"-eseed", false),
 			Type:    rapid.SampledFrom([]uint8{1, 3, 5}).Draw(t, label+"-etype"),
 			Expires: U32(t, label+"-eexp"),
 			Cost:    rapid.Uint8().Draw(t, label+"-ecost"),
@@ -646,7 +661,7 @@ func ELSG(t *rapid.T, label string, sigs []int) ELSSpec {
 		Published: U32(t, label+"-pub"),
 		Expires:   U16(t, label+"-exp"),
 		InnerLen:  rapid.SampledFrom([]int{61, 62, 100, 600, 2000, 65535}).Draw(t, label+"-innerlen"),
-		InnerSeed: rapid.Uint64().Draw(t, label+"-innerseed"),
+		InnerSeed: SeedG(t, label+"-innerseed", true),
 	}
 	if s.Expires == 0 {
 		s.Expires = 1
